@@ -82,3 +82,46 @@ func VerifC15FlagGates() {
 		lib.VerifReach("forbidden request refused locally")
 	}
 }
+
+// VerifC15EnvExposure: the requesting node's environment travels with a remote spawn / application
+// start request only when the requester has switched the matching exposure option on. The request is
+// produced by the real connection.Spawn / SpawnRegister / ApplicationStart, its bytes go through the
+// peer's real serve/handleRecvQueue/EDF, and the options the peer's core is handed are inspected.
+func VerifC15EnvExposure() {
+	site := lib.VerifShard("site", 3)
+	sCore := &vfCore{name: "a@h", creation: 11, env: map[gen.Env]any{"SECRET": "s3cr3t"}}
+	sCore.security.ExposeEnvRemoteSpawn = lib.VerifBool("expose-spawn")
+	sCore.security.ExposeEnvRemoteApplicationStart = lib.VerifBool("expose-appstart")
+	s, sinks := vfConnection(sCore, "b@h", 22, 1)
+	rCore := &vfCore{name: "b@h", creation: 22}
+	r, _ := vfConnection(rCore, "a@h", 11, 1)
+	// the answer never comes: the request ends with a timeout, which is not the subject here
+	switch site {
+	case 0:
+		s.Spawn("worker", gen.ProcessOptions{})
+	case 1:
+		s.SpawnRegister("reg", "worker", gen.ProcessOptions{})
+	case 2:
+		s.ApplicationStart("app", gen.ApplicationOptions{})
+	}
+	lib.VerifAssert(len(sinks[0].frames) == 1, "the request is one frame")
+	if len(sinks[0].frames) != 1 {
+		return
+	}
+	c12Deliver(r, sinks[0].all, false)
+	lib.VerifAssert(len(rCore.calls) == 1, "the request reaches the peer's core once")
+	if len(rCore.calls) != 1 {
+		return
+	}
+	switch site {
+	case 0, 1:
+		o, ok := rCore.calls[0].message.(gen.ProcessOptionsExtra)
+		lib.VerifAssert(ok && rCore.calls[0].kind == "spawn", "a spawn request arrives as such")
+		lib.VerifAssert((len(o.ParentEnv) > 0) == sCore.security.ExposeEnvRemoteSpawn, "the requester's environment travels with a remote spawn only when ExposeEnvRemoteSpawn is on")
+	case 2:
+		o, ok := rCore.calls[0].message.(gen.ApplicationOptionsExtra)
+		lib.VerifAssert(ok && rCore.calls[0].kind == "appstart", "an application start request arrives as such")
+		lib.VerifAssert((len(o.CoreEnv) > 0) == sCore.security.ExposeEnvRemoteApplicationStart, "the requester's environment travels with a remote application start only when ExposeEnvRemoteApplicationStart is on")
+	}
+	lib.VerifReach("exposure checked")
+}
